@@ -185,13 +185,13 @@ def Win.empty : Win := ⟨[], []⟩
 
 /-- `matrixIterSlice(it, mint, maxt, floats, histograms)` -/
 def matrixIterSlice (b : BufIter) (mint maxt : Int) (w : Win) : BufIter × Win :=
-  let (fl, mintF) := retain mint w.floats
-  let (hs, mintH) := retain mint w.hists
-  if mint = maxt then (b, ⟨fl, hs⟩) else
+  let rf := retain mint w.floats   -- (retained floats, mintFloats)
+  let rh := retain mint w.hists    -- (retained histograms, mintHistograms)
+  if mint = maxt then (b, ⟨rf.1, rh.1⟩) else
   let b' := b.seek maxt
   -- the buffered samples (all before maxt)
-  let fl := fl ++ b'.buf.filter (fun s => !s.hist && !s.stale && decide (s.t > mintF))
-  let hs := hs ++ b'.buf.filter (fun s => s.hist && decide (s.t > mintH) && !s.stale)
+  let fl := rf.1 ++ b'.buf.filter (fun s => !s.hist && !s.stale && decide (s.t > rf.2))
+  let hs := rh.1 ++ b'.buf.filter (fun s => s.hist && decide (s.t > rh.2) && !s.stale)
   -- the sought sample might also be in the range
   match b'.rest with
   | s :: _ =>
